@@ -335,6 +335,7 @@ func runC12(c *ev.ChildEnv, res *ev.Result) {
 				}
 			}
 		}
+		c12LengthSweep(res, mt, c.Tier)
 		// fields of a later protocol revision (unknown to this build): both codecs keep them, in order
 		for v := 0; v < 6; v++ {
 			m := mt.New()
@@ -371,7 +372,7 @@ func runC12(c *ev.ChildEnv, res *ev.Result) {
 func init() {
 	register(&Check{
 		ID: "C12", Level: "exploration", MinNontriv: 100,
-		Rule: "every message type of pkg/api with MarshalVT/UnmarshalVT/SizeVT (found through the protobuf registry at run time): the empty message, every field alone at {zero-but-set, boundary, random} x 4, and seeded random combinations (nesting depth 4, population 0.2/0.5/0.9); oracles: cross-decoding both ways, both round trips, SizeVT = bytes written, proto.Equal plus explicit populated-field-path comparison; unknown fields (1-3 per message: varints up to ten bytes, fixed-width, bytes) on every type and every 16th random message; distinct = (type, field, mode) tuples checked",
+		Rule: "every message type of pkg/api with MarshalVT/UnmarshalVT/SizeVT (found through the protobuf registry at run time): the empty message, every field alone at {zero-but-set, boundary, random} x 4, and seeded random combinations (nesting depth 4, population 0.2/0.5/0.9); oracles: cross-decoding both ways, both round trips, SizeVT = bytes written, proto.Equal plus explicit populated-field-path comparison; unknown fields (1-3 per message: varints up to ten bytes, fixed-width, bytes) on every type and every 16th random message; every length-delimited field (string, bytes, map entry by value and by key, repeated string, nested message) with contents sized 118..136 and 16370..16390 bytes, so that each length prefix crosses its varint boundaries; distinct = (type, field, mode) tuples checked",
 		Assumptions: []string{
 			"strings are valid UTF-8 and repeated/map message values are non-nil (outside what either encoder defines)",
 			"the in-process WebAssembly call path itself cannot be driven in this image (no wasm plugin can be built); the codec pair it relies on is executed natively",
